@@ -9,6 +9,7 @@ import (
 	"time"
 
 	bpmn "github.com/olive-io/bpmn/v2"
+	"github.com/olive-io/bpmn/v2/pkg/data"
 	"github.com/olive-io/bpmn/v2/pkg/tracing"
 
 	"github.com/olive-io/bpmn/schema"
@@ -37,6 +38,10 @@ type StoreStep struct {
 	Name   string              `json:"name"`
 	Val    string              `json:"val"`
 	Expect []map[string]string `json:"expect"`
+	Snap   struct {
+		Inst int               `json:"inst"`
+		Vals map[string]string `json:"vals"`
+	} `json:"snap"`
 }
 
 type ValueResult struct {
@@ -310,13 +315,23 @@ func engineValue(kind string, res *ValueResult) {
 	}
 }
 
+// sameStored: equality of a read-back value with the canonical form of what was stored; nil
+// without a declaration may read back as nil or as the type-less empty value (the property does
+// not pin its canonical form).
+func sameStored(got, want any) bool {
+	if want == nil {
+		return got == nil || got == ""
+	}
+	return reflect.DeepEqual(got, want)
+}
+
 func storeRun(sc ValueScenario, res *ValueResult) {
 	defs, err := schema.Parse([]byte(valueProcessXML))
 	if err != nil {
 		res.Mismatches = append(res.Mismatches, "parse: "+err.Error())
 		return
 	}
-	kinds := []string{"int", "uint8", "float64", "string", "slice", "map", "bool", "struct", "int64"}
+	kinds := []string{"int", "uint8", "float64", "string", "slice", "map", "bool", "struct", "int64", "nil", "ptr_int", "float32"}
 	concrete := map[string]any{}
 	for i, name := range []string{"v1", "v2"} {
 		k := kinds[int(sc.Seed+int64(i)*3)%len(kinds)]
@@ -326,10 +341,25 @@ func storeRun(sc ValueScenario, res *ValueResult) {
 	ctx, cancel := context.WithCancel(context.Background())
 	defer cancel()
 	var insts [2]*bpmn.Process
-	if sc.Mode == "shared" {
+	// every ready-made item handed to the engine, with the value it had then: a value handed in
+	// is never changed by what is stored later
+	type handed struct {
+		it   *schema.Value
+		want any
+		what string
+	}
+	var items []handed
+	var snapshot map[string]data.IItem
+	if sc.Mode == "shared" || sc.Mode == "shareditem" {
 		// one engine, ONE option list used for both instances
 		engine := bpmn.NewEngine()
-		opts := []bpmn.Option{bpmn.WithContext(ctx), bpmn.WithVariables(map[string]any{"a": concrete["v1"]})}
+		var start any = concrete["v1"]
+		if sc.Mode == "shareditem" {
+			it := schema.NewValue(concrete["v1"])
+			items = append(items, handed{it, canon(concrete["v1"]), "the start variable item of the shared option list"})
+			start = it
+		}
+		opts := []bpmn.Option{bpmn.WithContext(ctx), bpmn.WithVariables(map[string]any{"a": start})}
 		for i := range insts {
 			insts[i], err = engine.NewProcess(defs, opts...)
 			if err != nil {
@@ -351,9 +381,37 @@ func storeRun(sc ValueScenario, res *ValueResult) {
 		loc := insts[st.Inst-1].Locator()
 		if st.Op == "set" {
 			if st.Via == "item" {
-				loc.SetVariable(st.Name, schema.NewValue(concrete[st.Val]))
+				it := schema.NewValue(concrete[st.Val])
+				items = append(items, handed{it, canon(concrete[st.Val]), fmt.Sprintf("the item stored as %s in instance %d at step %d", st.Name, st.Inst, si)})
+				loc.SetVariable(st.Name, it)
 			} else {
 				loc.SetVariable(st.Name, concrete[st.Val])
+			}
+		}
+		if st.Op == "snap" {
+			snapshot = loc.CloneVariables()
+		}
+		if st.Op == "merge" {
+			loc.Merge(insts[2-st.Inst].Locator())
+		}
+		// a snapshot taken earlier still shows what the instance held then
+		if snapshot != nil {
+			for name, want := range st.Snap.Vals {
+				it, present := snapshot[name]
+				if want == "-" {
+					if present {
+						res.Mismatches = append(res.Mismatches, fmt.Sprintf("store step %d (%s): the snapshot taken earlier now has %s", si, st.Op, name))
+					}
+					continue
+				}
+				if !present || !sameStored(it.Value(), canon(concrete[want])) {
+					res.Mismatches = append(res.Mismatches, fmt.Sprintf("store step %d (%s): the CloneVariables snapshot taken earlier changed: %s is no longer %#v", si, st.Op, name, canon(concrete[want])))
+				}
+			}
+		}
+		for _, hd := range items {
+			if g := hd.it.Value(); !sameStored(g, hd.want) {
+				res.Mismatches = append(res.Mismatches, fmt.Sprintf("store step %d (%s inst %d): %s was changed behind the caller's back: %#v, was %#v", si, st.Op, st.Inst, hd.what, g, hd.want))
 			}
 		}
 		// after every operation both instances must hold exactly what the model says
@@ -371,10 +429,15 @@ func storeRun(sc ValueScenario, res *ValueResult) {
 					res.Mismatches = append(res.Mismatches, fmt.Sprintf("store step %d: instance %d lost %s", si, ii+1, name))
 					continue
 				}
-				if g, w := it.Value(), canon(concrete[want]); !reflect.DeepEqual(g, w) {
+				if g, w := it.Value(), canon(concrete[want]); !sameStored(g, w) {
 					res.Mismatches = append(res.Mismatches, fmt.Sprintf("store step %d: instance %d %s = %#v, want %#v", si, ii+1, name, g, w))
 				}
-				if v, ok := insts[ii].Locator().GetVariable(name); !ok || !reflect.DeepEqual(v, canon(concrete[want])) {
+				// the item type is the one the value has as an item of its own, whichever way
+				// (raw, ready-made item, merge, shared start variable) it reached the store
+				if g, w := it.Type(), schema.NewValue(concrete[want]).Type(); g != w {
+					res.Mismatches = append(res.Mismatches, fmt.Sprintf("store step %d: instance %d %s has item type %q, the value's own item type is %q", si, ii+1, name, g, w))
+				}
+				if v, ok := insts[ii].Locator().GetVariable(name); !ok || !sameStored(v, canon(concrete[want])) {
 					res.Mismatches = append(res.Mismatches, fmt.Sprintf("store step %d: GetVariable(%s) on instance %d = %#v", si, name, ii+1, v))
 				}
 			}
